@@ -192,6 +192,7 @@ theorem step_own_other (w : World) (e : Event) (he : ∀ s fu m f t, e ≠ .exec
     simp only [step]
     split <;> rfl
   | faucet to coin => rfl
+  | reseq n => rfl
 
 /-- **every event of the chain model** -/
 theorem step_own (w : World) (e : Event) : ownOf (step w e).w.c = ownAfter w e := by
